@@ -103,6 +103,9 @@ def reunit(cyc, spec):
         elif op['op'] == 'init':
             op['pos'] = reexpress(cyc, 'AngularPosition', op['pos'])
             op['speed'] = reexpress(cyc, 'AngularSpeed', op['speed'])
+    if cyc.rng.random() < 0.3:
+        # ... and parameter objects of the live components are re-expressed in place between construction and a run
+        sim_props.inject_reunit(cyc.rng, s, s['ops'])
     return s
 
 
